@@ -51,7 +51,7 @@ func CanaryScope(nested bool) map[string]cty.Value {
 		"ns":  m(cty.NullVal(cty.String)),
 		"l":   top(cty.ListVal([]cty.Value{el(n(48213)), el(n(73901))})),
 		"ls":  top(cty.ListVal([]cty.Value{el(s("K3Q9ZX7A")), el(s("W8PLM2RT"))})),
-		"le":  top(cty.ListValEmpty(cty.String)),
+		"le":  top(cty.ListValEmpty(cty.Object(map[string]cty.Type{"a": cty.Number}))),
 		"t":   top(cty.TupleVal([]cty.Value{el(n(48213)), el(s("K3Q9ZX7A"))})),
 		"o":   top(cty.ObjectVal(map[string]cty.Value{"a": el(n(48213)), "b": el(s("K3Q9ZX7A"))})),
 		"m":   m(cty.MapVal(map[string]cty.Value{"K3Q9KEYA": s("W8PLM2RT"), "J5KEYB2X": s("K3Q9ZX7A")})),
